@@ -234,9 +234,10 @@ func (ci *index) find(id string) (c *Persistent, ok bool) {
 	return nil, false
 }
 
-// findByClientID finds persistent client by ClientID.
+// findByClientID finds persistent client by ClientID.  ClientIDs are
+// case-insensitive and are stored in lower case, see [Persistent.setID].
 func (ci *index) findByClientID(clientID string) (c *Persistent, ok bool) {
-	uid, ok := ci.clientIDToUID[clientID]
+	uid, ok := ci.clientIDToUID[strings.ToLower(clientID)]
 	if ok {
 		return ci.uidToClient[uid], true
 	}
